@@ -263,7 +263,24 @@ def r6(ctx):
               key="opening-fill")
 
 
+def r7(ctx):
+    MD = "barter::engine::state::instrument::data::DefaultInstrumentMarketData"
+    b = ctx.body(ctx.find(name="price", self_adt=MD, trait="barter::engine::state::instrument::data::InstrumentDataState"))
+    rt = b.return_term()
+    ok = rt[0] == "call" and rt[1].endswith("Option::<T>::or") and render(rt[2][0]) == "OrderBookL1::volume_weighed_mid_price(self.l1)"
+    if ok:
+        alt = rt[2][1]
+        ok = alt[0] == "call" and alt[1].endswith("::map") and render(alt[2][0]) == "self.last_traded_price"
+        if ok:
+            cb, _ = mir.closure_body(ctx.facts, alt[2][1])
+            ok = render(cb.return_term()) == "$1.value"
+    ctx.check("DefaultInstrumentMarketData::price", ok,
+              "the default instrument price is the current top-of-book mid, else the last traded price, both read from the data just processed",
+              got=render(rt)[:200], key="source")
+
+
 RULES = [
+    ("R7", "default InstrumentDataState::price reads the freshly processed market data", r7),
     ("R6", "a position opened by a fill carries the estimate at the fill price", r6),
     ("R1", "the engine's market path must reach Position::update_pnl_unrealised (call graph, accepted guards only)", r1),
     ("R2", "InstrumentState::update_from_market: process -> price() -> update_pnl_unrealised(price), in that order", r2),
